@@ -215,7 +215,7 @@ func c04RunOnce(tree *h.Tree, dstDir string, c *c04Case, f *c04Fault) *c04Run {
 	}
 	run.fired = atomic.LoadInt32(&fired) == 1
 	p := run.res.Pair
-	run.counts = c04Counts{SendS: p.S.SendCount(), RecvS: p.S.RecvCount(), SendR: p.R.SendCount(), RecvR: p.R.RecvCount(), Walk: len(tree.Nodes), Hasher: int(hashN), Notify: int(notifyN)}
+	run.counts = c04Counts{SendS: p.S.SendCount(), RecvS: p.S.RecvCount(), SendR: p.R.SendCount(), RecvR: p.R.RecvCount(), Walk: len(tree.Nodes), Hasher: int(atomic.LoadInt32(&hashN)), Notify: int(atomic.LoadInt32(&notifyN))}
 	return run
 }
 
